@@ -575,7 +575,12 @@ pub fn run(o: &Opts) -> Report {
                 if dead {
                     break;
                 }
-                let op: Op = gen_op(&mut rng, &ts, &snap, &cfg);
+                let mut op: Op = gen_op(&mut rng, &ts, &snap, &cfg);
+                if cfg_kind.contains("ghost") && matches!(op.name, "remove_dir_all" | "copy_dir" | "move_dir") {
+                    // these abort at the ghost entry; what they did before depends on the listing
+                    // order (HashMap), which the two worlds do not share: walk instead
+                    op = Op { name: "walk", path: op.path.clone(), bytes: None, dest: None, time: None };
+                }
                 ops_desc.push(op.describe());
                 let line = op.line(cfg.target);
                 if std::env::var("VH_DEBUG").is_ok() {
